@@ -573,7 +573,7 @@ def SoundInv (tok : Bytes) (s : St) (P : Bytes) : Prop :=
   s.markuper.token = tok ∧ tok = CRLF ++ s.markuper.boundary ∧ Terminated tok P s.markups ∧
   (s.error = none → s.markuper.stopped = false → PhaseInv tok s.markuper s.markups.length P)
 
-theorem call_headers (mk mk' : Markuper) (chunk : Bytes) (base : Nat) (r : Option Int)
+theorem call_headers_trest (mk mk' : Markuper) (chunk : Bytes) (base : Nat) (r : Option Int)
     (h : mk.call .headers chunk base = .ok (mk', r)) : mk'.trest = mk.trest := by
   unfold Markuper.call at h
   simp only at h
@@ -655,7 +655,7 @@ theorem iterLoop_sound (tok pre chunk : Bytes) (pm : List Markup) (ht : 2 ≤ to
       simp only at hcur
       subst hcur
       simp only
-      rw [call_headers _ _ _ _ _ hc]; exact g6 rfl
+      rw [call_headers_trest _ _ _ _ _ hc]; exact g6 rfl
     · intro hcur
       simp only at hcur
       subst hcur
@@ -719,7 +719,7 @@ theorem iterLoop_sound (tok pre chunk : Bytes) (pm : List Markup) (ht : 2 ≤ to
       obtain ⟨hname, hcur'⟩ := hn.1 rfl
       obtain ⟨hass', hsns', _⟩ := ha.1 rfl
       subst hcur'
-      have htr : mk'.trest = none := by rw [call_headers _ _ _ _ _ hc]; exact g6 rfl
+      have htr : mk'.trest = none := by rw [call_headers_trest _ _ _ _ _ hc]; exact g6 rfl
       have hge : 0 ≤ e + 4 := by
         have := (call_res_ge _ _ _ _ _ _ hc (by rw [g1]; exact ht)).1 rfl; exact this
       have hle : e + 4 ≤ chunk.length := by
